@@ -3,12 +3,14 @@
 
    What is proved here (all operations of Model/Session.v, every schema, every state or operation list) is the transaction
    structure of the session model (which operations can change the committed database and what they make it) and the completeness
-   of a flush at the level of statuses.  The other half of
-   the property - the rows a successful commit writes are the objects, values and links the program holds - is NOT proved: it is
+   of a flush at the level of statuses, and - for Stage 1 schemas WITHOUT Required references (no ON DELETE CASCADE) - the first
+   piece of the simulation: in every clean history the committed row of every object the program holds carries exactly the object's
+   scalar attribute values (C09_committed_scalars_except_known, from the coherence invariant of Proofs/SessionCoh.v).  NOT proved:
+   the same for reference columns and collections, schemas with Required references, and that no other rows exist; those are
    checked on generated histories against the logical reference state of tools/session_spec.py (on the implementation) and
    refuted for two known defects (Findings/C09.v).  Stage 1 schema space of DESIGN Appendix A. *)
 Require Import PonyV.Model.SessionBase PonyV.Model.SessionDb PonyV.Model.Session.
-Require Import PonyV.Proofs.SessionDbPd PonyV.Proofs.SessionTxn PonyV.Proofs.SessionQueue PonyV.Proofs.SessionQueueInv.
+Require Import PonyV.Proofs.SessionDbPd PonyV.Proofs.SessionTxn PonyV.Proofs.SessionQueue PonyV.Proofs.SessionQueueInv PonyV.Proofs.SessionCoh.
 
 (* changes made after the last commit are never published by anything but a commit (or leaving the db_session, which commits):
    every other operation - including rollback, failing operations and every read with its auto-flush - leaves the committed database alone *)
@@ -79,6 +81,48 @@ Theorem C09_flush_completes_except_known : forall sch, wf_schema sch = true ->
   forall o ob, get_obj s' o = Some ob -> pending (o_st ob) = false.
 Proof. exact flush_completes_all_histories. Qed.
 Print Assumptions C09_flush_completes_except_known.
+
+(* ---- Stage 1 schemas without Required references: cache / database coherence for scalar attributes (Proofs/SessionCoh.v) ---- *)
+
+(* the invariant itself, for every history that reached no dirty site: dbvals mirror the transaction's rows, values the program did not
+   write are the rows' values, both databases keep their shape and key constraints (see Cq in Proofs/SessionCoh.v) *)
+Theorem C09_cache_database_coherence_except_known : forall sch, no_req_refs sch = true -> wf_schema sch = true -> forall ops,
+  s_dirty (run sch ops) = O -> Cq sch (run sch ops).
+Proof. exact coherence_all_histories. Qed.
+Print Assumptions C09_cache_database_coherence_except_known.
+
+(* after a successful commit in a clean history the committed row of an object (loaded, inserted or updated; not a seed) exists and holds
+   exactly the object's current scalar values *)
+Theorem C09_committed_scalars_settled_except_known : forall sch, no_req_refs sch = true -> wf_schema sch = true -> forall ops s',
+  s_dirty (run sch ops) = O -> step sch (run sch ops) OCommit = (s', ROk) ->
+  forall o ob z, get_obj s' o = Some ob -> o_pk ob = Some z -> settled (o_st ob) = true -> o_seed ob = false ->
+  exists r, In r (tab (s_committed s') (o_ent ob)) /\ r_pk r = z /\
+            forall a v, scalar sch (o_ent ob) a = true -> notref v = true -> oval ob a = Some v -> col r a = v.
+Proof. exact committed_scalars. Qed.
+Print Assumptions C09_committed_scalars_settled_except_known.
+
+(* ... and when the transaction had something to save, that is every object the program did not delete (flush completeness) *)
+Theorem C09_committed_scalars_except_known : forall sch, no_req_refs sch = true -> wf_schema sch = true -> forall ops s',
+  s_dirty (run sch ops) = O -> s_modified (run sch ops) = true -> step sch (run sch ops) OCommit = (s', ROk) ->
+  forall o ob z, get_obj s' o = Some ob -> o_pk ob = Some z -> is_del (o_st ob) = false -> o_seed ob = false ->
+  exists r, In r (tab (s_committed s') (o_ent ob)) /\ r_pk r = z /\
+            forall a v, scalar sch (o_ent ob) a = true -> notref v = true -> oval ob a = Some v -> col r a = v.
+Proof. exact committed_scalars_every_live_object. Qed.
+Print Assumptions C09_committed_scalars_except_known.
+
+(* non-vacuity of the three statements: a schema without Required references, a clean history with an insert, a reload, an update and a delete;
+   the last commit succeeds with something to save, and the surviving object (inserted, then updated) is there with its row *)
+Example C09_committed_scalars_nonvacuous :
+  let sch := [mkEnt false [mkAttr KInt false true; mkAttr KStr false false; mkAttr (KSet 1 0) false false]; mkEnt true [mkAttr (KRef 0 2) false false; mkAttr KInt false false]] in
+  let ops := [ONew 0 (Some 1%Z) [(0, AInt 5%Z)]; ONew 1 None [(0, AObj 0); (1, AInt 3%Z)]; ONew 1 None [(1, AInt 4%Z)]; OCommit; ONewSession;
+              OGetPk 0 (AInt 1%Z); OSet 0 0 (AInt 6%Z); OSelectAll 1; ODelete 2; OSet 1 1 (AInt 9%Z)]%nat in
+  no_req_refs sch = true /\ wf_schema sch = true /\ s_dirty (run sch ops) = O /\ s_modified (run sch ops) = true /\
+  snd (step sch (run sch ops) OCommit) = ROk /\
+  map (fun ob => (o_ent ob, o_pk ob, o_st ob, o_seed ob)) (s_objs (fst (step sch (run sch ops) OCommit))) =
+    [(0, Some 1%Z, SUpdated, false); (1, Some 1%Z, SUpdated, false); (1, Some 2%Z, SDeleted, false)]%nat /\
+  tab (s_committed (fst (step sch (run sch ops) OCommit))) 0 = [mkRow 1%Z [VInt 6%Z; VStr []; VNone]] /\
+  tab (s_committed (fst (step sch (run sch ops) OCommit))) 1 = [mkRow 1%Z [VInt 1%Z; VInt 9%Z]].
+Proof. vm_compute. repeat split; reflexivity. Qed.
 
 (* non-vacuity: create, commit, update + delete + create, roll back, update, commit: the committed rows are those of the two commits *)
 Example C09_nonvacuous :
